@@ -763,6 +763,11 @@ func checkRequiredness(c *Ctx, r *Report, clause string) {
 				cnd, pol := unwrapNot(f.Cond, f.Pol)
 				if isPtr != nil && cnd == ssa.Value(isPtr) && pol {
 					okPtr = true
+					// the decision may have moved to the callers: the flag they pass is
+					// `isPointer && passedIn != Path` (written in place or in a split-off helper)
+					if passed == nil && w.flagIsPointerAndNotPath(fi, isPtr) {
+						okPath = true
+					}
 				}
 				if cl, ok := cnd.(*ssa.Call); ok && pol && strings.HasPrefix(calleeName(cl), "slices.Contains") && hasConst(sliceOf(cnd), `"required"`) {
 					okTag = true // membership in the split tag list
@@ -861,4 +866,93 @@ func checkEveryDeclaredParamKept(c *Ctx, r *Report, clause string) {
 		func(fi *FuncInfo) func(ast.Expr) bool { return w.rangeOverType(fi, "[]core/metadata.FieldMeta") }, "fields (names of one parameter field)",
 		func(fi *FuncInfo) func(ast.Node) bool { return w.appendTo(fi, w.resultSlice(fi)) }, "append(params)", nil, false,
 		"every name of a parameter field yields one FuncParam, in order")
+}
+
+// flagIsPointerAndNotPath: every call of fi passes, for the bool parameter p, a value that is
+// true only if (a bool parameter of the caller) && (a ParamPassedIn parameter of the caller != "Path").
+func (w *World) flagIsPointerAndNotPath(fi *FuncInfo, p *ssa.Parameter) bool {
+	idx := -1
+	for i, q := range fi.SSA.Params {
+		if q == p {
+			idx = i
+		}
+	}
+	sites := w.callersOf(nameIs(fi.Key))
+	if idx < 0 || len(sites) == 0 {
+		return false
+	}
+	// conj: v is `a && b` as SSA builds it: phi(false from the block that tested a, b)
+	var isConj func(v ssa.Value, subst map[*ssa.Parameter]ssa.Value, depth int) bool
+	resolve := func(v ssa.Value, subst map[*ssa.Parameter]ssa.Value) ssa.Value {
+		v = stripTrivial(v)
+		if q, ok := v.(*ssa.Parameter); ok && subst != nil {
+			if a, ok := subst[q]; ok {
+				return stripTrivial(a)
+			}
+		}
+		return v
+	}
+	isConj = func(v ssa.Value, subst map[*ssa.Parameter]ssa.Value, depth int) bool {
+		v = stripTrivial(v)
+		if depth > 3 {
+			return false
+		}
+		switch x := v.(type) {
+		case *ssa.Call:
+			callee := x.Common().StaticCallee()
+			if callee == nil || !w.isNewFn(callee) || len(callee.Params) != len(x.Common().Args) {
+				return false
+			}
+			sub := map[*ssa.Parameter]ssa.Value{}
+			for i, q := range callee.Params {
+				sub[q] = resolve(x.Common().Args[i], subst)
+			}
+			for _, ex := range exitsOf(callee) {
+				if ex.Ret == nil || len(ex.Ret.Results) != 1 || !isConj(ex.Ret.Results[0], sub, depth+1) {
+					return false
+				}
+			}
+			return true
+		case *ssa.Phi:
+			if len(x.Edges) != 2 {
+				return false
+			}
+			okFalse, okCmp, okTest := false, false, false
+			for i, e := range x.Edges {
+				if k, ok := e.(*ssa.Const); ok && k.Value != nil && constString(k.Value) == "false" {
+					okFalse = true
+					// the predecessor that yields false tested the bool
+					pred := x.Block().Preds[i]
+					if iff, ok := pred.Instrs[len(pred.Instrs)-1].(*ssa.If); ok {
+						if q, ok := resolve(iff.Cond, subst).(*ssa.Parameter); ok && paramTyped(q, "bool") {
+							okTest = true
+						}
+					}
+					continue
+				}
+				if bo, ok := stripTrivial(e).(*ssa.BinOp); ok && bo.Op == token.NEQ {
+					l, r := resolve(bo.X, subst), resolve(bo.Y, subst)
+					isPassed := func(v ssa.Value) bool {
+						q, ok := v.(*ssa.Parameter)
+						return ok && paramTyped(q, "definitions.ParamPassedIn")
+					}
+					isPath := func(v ssa.Value) bool {
+						k, ok := v.(*ssa.Const)
+						return ok && k.Value != nil && constString(k.Value) == "Path"
+					}
+					if (isPassed(l) && isPath(r)) || (isPassed(r) && isPath(l)) {
+						okCmp = true
+					}
+				}
+			}
+			return okFalse && okCmp && okTest
+		}
+		return false
+	}
+	for _, cs := range sites {
+		if idx >= len(cs.Common().Args) || !isConj(cs.Common().Args[idx], nil, 0) {
+			return false
+		}
+	}
+	return true
 }
